@@ -21,12 +21,13 @@ MBegin(th) ==
                            /\ Begin(th, now, "queue", "", a, 0, "")
       \/ \E to \in WaitTimeouts : Begin(th, now, "wait", "", "", to, "")
       \/ Begin(th, now, "wfor", "", "", 0, "") \/ Begin(th, now, "deadline", "", "", 0, "") \/ Begin(th, now, "mset", "", "", 0, "")
-      \/ Begin(th, now, "setname", "", "", 0, "x")
+      \/ Begin(th, now, "setname", "", "", 0, "x") \/ Begin(th, now, "mforce", "", "", 0, "") \/ Begin(th, now, "mclear", "", "", 0, "")
 MLin(th) == Lin(th, now) /\ Still /\ UNCHANGED ncalls
 MAct(th) == flusher = th /\ Act(th, Head(queued), Head(queued) \in RaisingActs, now) /\ Still /\ UNCHANGED ncalls
 MRet(th) == /\ \/ RetPlain(th) \/ RetNew(th, call[th].ires) \/ RetNames(th, call[th].sres)
                \/ RetDeadline(th, call[th].ires) \/ RetFlag(th, call[th].bres)
                \/ \E b \in BOOLEAN : RetWait(th, b, now)
+               \/ RetRefused(th)
             /\ Still /\ UNCHANGED ncalls
 (* a wait whose limit is reached returns before the clock goes on *)
 Due(th) == call[th].op = "wait" /\ call[th].st = "snapped" /\ (WaitFalseOK(call[th], now) \/ WaitTrueOK(call[th], now))
